@@ -24,7 +24,8 @@ ASSUMPTIONS = ["hop-by-hop ids are unique per connection, not across connections
                "a connection is 'ready' for an answer iff its socket is open on both sides and no DPR/DPA was exchanged"]
 TIMEOUT = {"quick": 900, "thorough": 3600}
 SCTP_CLONES = {"quick": ['rand3', 'enum0'], "thorough": ['rand10', 'rand11', 'enum0', 'concurrent3']}
-FAULTS = ["none", "close", "reset", "dpr", "reconnect", "second_conn", "second_conn_before", "second_conn_then_close"]
+FAULTS = ["none", "close", "reset", "dpr", "reconnect", "second_conn", "second_conn_before", "second_conn_then_close",
+          "second_conn_then_dpr"]
 
 
 def shards(tier, seed):
@@ -97,6 +98,11 @@ class Case:
             self.socks[t].append(self.connect(t, gen=len(self.socks[t])))
         elif f == "second_conn":
             self.socks[t].append(self.connect(t, gen=len(self.socks[t])))
+        elif f == "second_conn_then_dpr":
+            # as above, but the connection that carried the requests leaves the ready state through a DPR and stays open
+            self.socks[t].append(self.connect(t, gen=len(self.socks[t])))
+            h.settle()
+            p.send(M.dpr(name, self.REALM, hbh=900, e2e=900))
         elif f == "second_conn_then_close":
             # the peer stays connected through a second connection while the one that carried the requests goes
             self.socks[t].append(self.connect(t, gen=len(self.socks[t])))
